@@ -340,6 +340,10 @@ func (ex *Exec) visitInstr(fr *frame, instr ssa.Instruction) cont {
 	case *ssa.Send, *ssa.Go, *ssa.Select, *ssa.MakeChan:
 		ex.unsupported(fmt.Sprintf("instruction %T in %s", instr, fr.fn))
 	case *ssa.Store:
+		if sp, ok := fr.get(instr.Addr).(*SymPtr); ok {
+			ex.symStore(sp, fr.get(instr.Val))
+			break
+		}
 		addr := fr.get(instr.Addr).(*Value)
 		if addr == nil {
 			ex.rtPanic(fr, "nil", "invalid memory address or nil pointer dereference (store)", instr.Pos())
@@ -472,6 +476,9 @@ func (ex *Exec) unop(fr *frame, instr *ssa.UnOp) Value {
 	x := fr.get(instr.X)
 	switch instr.Op {
 	case token.MUL: // load
+		if sp, ok := x.(*SymPtr); ok {
+			return ex.symLoad(sp)
+		}
 		p := x.(*Value)
 		if p == nil {
 			ex.rtPanic(fr, "nil", "invalid memory address or nil pointer dereference (load)", instr.Pos())
@@ -570,9 +577,74 @@ func (ex *Exec) concIndex(fr *frame, idx *Term, n int, pos token.Pos) int {
 	return int(i)
 }
 
+// SymPtr is the address of an element of a scalar array/slice at a symbolic index
+// (already proved in range on this path).
+type SymPtr struct {
+	elems []Value
+	idx   *Term // 64-bit
+}
+
+func (ex *Exec) symLoad(p *SymPtr) Value {
+	tt := ex.tt
+	acc := p.elems[len(p.elems)-1].(*Term)
+	for i := len(p.elems) - 2; i >= 0; i-- {
+		acc = tt.Ite(tt.Eq(p.idx, tt.BV(64, uint64(i))), p.elems[i].(*Term), acc)
+	}
+	return acc
+}
+
+func (ex *Exec) symStore(p *SymPtr, v Value) {
+	tt := ex.tt
+	for i := range p.elems {
+		p.elems[i] = tt.Ite(tt.Eq(p.idx, tt.BV(64, uint64(i))), v.(*Term), p.elems[i].(*Term))
+	}
+}
+
+func scalarElems(vs []Value) bool {
+	if len(vs) == 0 || len(vs) > 256 {
+		return false
+	}
+	for _, v := range vs {
+		if _, ok := v.(*Term); !ok {
+			return false
+		}
+	}
+	return true
+}
+
+// symIndex returns a SymPtr for a symbolic in-range index into scalar elements, or nil.
+func (ex *Exec) symIndex(fr *frame, elems []Value, idx *Term, pos token.Pos) *SymPtr {
+	if idx.IsConst() || !scalarElems(elems) {
+		return nil
+	}
+	idx = ex.tt.Resize(idx, 64, true)
+	if idx.IsConst() {
+		return nil
+	}
+	inr := ex.tt.Cmp(OUlt, idx, ex.tt.BV(64, uint64(len(elems))))
+	if !ex.branch(inr) {
+		ex.rtPanic(fr, "index", fmt.Sprintf("index out of range [symbolic] with length %d", len(elems)), pos)
+	}
+	return &SymPtr{elems: elems, idx: idx}
+}
+
 func (ex *Exec) indexAddr(fr *frame, instr *ssa.IndexAddr) Value {
 	x := fr.get(instr.X)
 	idx := fr.get(instr.Index).(*Term)
+	if !idx.IsConst() {
+		switch v := x.(type) {
+		case *Value:
+			if v != nil {
+				if sp := ex.symIndex(fr, []Value((*v).(Array)), idx, instr.Pos()); sp != nil {
+					return sp
+				}
+			}
+		case Slice:
+			if sp := ex.symIndex(fr, v.data, idx, instr.Pos()); sp != nil {
+				return sp
+			}
+		}
+	}
 	switch v := x.(type) {
 	case *Value:
 		if v == nil {
@@ -593,10 +665,22 @@ func (ex *Exec) indexOp(fr *frame, instr *ssa.Index) Value {
 	idx := fr.get(instr.Index).(*Term)
 	switch v := x.(type) {
 	case Array:
+		if sp := ex.symIndex(fr, []Value(v), idx, instr.Pos()); sp != nil {
+			return ex.symLoad(sp)
+		}
 		i := ex.concIndex(fr, idx, len(v), instr.Pos())
 		return copyVal(v[i])
 	case string, SymStr:
 		bs := ex.strBytes(x)
+		if !idx.IsConst() && len(bs) > 0 && len(bs) <= 256 {
+			vs := make([]Value, len(bs))
+			for i, b := range bs {
+				vs[i] = b
+			}
+			if sp := ex.symIndex(fr, vs, idx, instr.Pos()); sp != nil {
+				return ex.symLoad(sp)
+			}
+		}
 		i := ex.concIndex(fr, idx, len(bs), instr.Pos())
 		return bs[i]
 	}
